@@ -24,7 +24,7 @@ import ast
 import itertools
 
 from ..absint import Interp, Raised, Record, Unsupported
-from ..astx import call_name, dotted, enclosing_stmt, expand, facts_at, kwarg, last, reaching_def
+from ..astx import call_name, dotted, enclosing_stmt, expand, kwarg, last, reaching_def
 from ..cfg import CFG
 from ..index import AnchorError, FuncNode, enclosing_class, enclosing_function, parent, qualname_of, walk_shallow
 from ..selftest import Twin
